@@ -75,6 +75,20 @@ TEMPLATES = {
     ("Application::lambda", None): "res / on get -> <(HOLE num)>;",
     ("refs", None): "let @r = HOLE;\nres / on get -> <@r>;",
 }
+# the same sites with their optional neighbours present (a check that looks at a child only when a sibling is absent
+# shows only here)
+ALT_TEMPLATES = {
+    ("Transfer::range", None): ["res / on put : <{}> -> HOLE;", "res / on get { 'q num } -> HOLE;", "res / on post { 'q num } : <{}> -> HOLE;"],
+    ("Transfer::domain", None): ["res / on put { 'q num } : HOLE -> <>;"],
+    ("Content::body", None): ["res / on get -> <status=200, media=\"text/plain\", headers={ 'h str }, HOLE>;"],
+    ("ContentMeta::rhs", "Status"): ["res / on get -> <status=HOLE>;", "res / on get -> <media=\"a/b\", status=HOLE, {}>;"],
+    ("ContentMeta::rhs", "Media"): ["res / on get -> <status=200, media=HOLE, {}>;"],
+    ("ContentMeta::rhs", "Headers"): ["res / on get -> <headers=HOLE>;"],
+    ("Relation::uri", None): ["res HOLE on get -> <>, put : <{}> -> <>;"],
+    ("Property::rhs", None): ["res / on get -> <{ 'p! HOLE, 'q num }>;", "res / on get { 'p HOLE } -> <>;", "res /a?{ 'p HOLE } on get -> <>;"],
+    ("Array::inner", None): ["res / on get -> <[[HOLE]]>;"],
+    ("UriVariable::inner", None): ["res /a/{ HOLE }/b/{ 'k num } on get -> <>;"],
+}
 # the same site inside the body of a one-parameter function living in another module
 XMOD = {
     ("Transfer::domain", None): ("let f x = put : x -> <>;", "res / on (f ARG);"),
@@ -438,9 +452,34 @@ def extract_guards(M, E, ckdisp, tables, unknown):
                             if cf is not None:
                                 adm2 = closure_admits(M, E, cf, tables, unknown)
                                 adm = adm2 if adm is None else (adm & adm2)
+                if adm is None and mandatory(r) and p.kind == "return":
+                    # the child always exists (its accessor answers the node itself, not an Option) and this accepting path
+                    # of the checker never looked at it: every kind is admitted here
+                    adm = set(tables.tags)
                 if adm is not None:
                     guards.setdefault(r, []).append((sub, adm, fn))
     return guards
+
+
+_MAND = {}
+
+
+def mandatory(root):
+    """Does the syntax accessor `Node::child` always answer a node (true) or an Option / an iterator (false)?"""
+    if root in _MAND:
+        return _MAND[root]
+    res = False
+    try:
+        MSy = mirlib.module("oal-syntax")
+        node, acc = root.split("::")
+        fs = [f for f in MSy.funcs if f.kind == "fn" and f.name.split("::")[-1] == acc and len(f.args) == 1 and (node + "<") in f.args[0][1]]
+        if len(fs) == 1:
+            ret = fs[0].ret.strip()
+            res = not (ret.startswith(("std::option::Option<", "Option<", "impl ", "std::iter", "Box<dyn")) or "Iterator" in ret)
+    except Exception:
+        res = False
+    _MAND[root] = res
+    return res
 
 
 def closure_admits(M, E, cf, tables, unknown):
@@ -585,11 +624,16 @@ def producer_table(M, E, tables, evdisp, unknown):
 
 
 def site_guard(s, guards):
-    g = None
+    """What reaches the cast: a kind passes if, in every check function that looks at this child, SOME accepting path
+    admits it (paths of one function are alternatives, functions are conjuncts)."""
+    per_fn = {}
     for rk in [s["root"], s.get("loop_root")] + GUARD_ALIASES.get(s["root"], []):
         for sub, adm, fn in guards.get(rk, []) if rk else []:
             if sub is None or sub == s["sub"]:
-                g = adm if g is None else g & adm
+                per_fn.setdefault((rk, fn), set()).update(adm)
+    g = None
+    for adm in per_fn.values():
+        g = set(adm) if g is None else g & adm
     return g
 
 
@@ -624,6 +668,12 @@ def render(site, prod, mode):
         if not t:
             return None
         return {"main.oal": PRELUDE + prod.get("prelude", "") + t.replace("HOLE", hole) + "\n"}
+    if mode.startswith("alt"):
+        ts = ALT_TEMPLATES.get(key, [])
+        k = int(mode[3:])
+        if k >= len(ts):
+            return None
+        return {"main.oal": PRELUDE + prod.get("prelude", "") + ts[k].replace("HOLE", hole) + "\n"}
     if mode == "let":
         t = TEMPLATES.get(key)
         if not t:
@@ -753,7 +803,7 @@ def check():
             uncovered.append(name)
         for pid in models:
             prod = [p for p in prods if p["id"] == pid][0]
-            for mode in ("direct", "let"):
+            for mode in ("direct", "let", "alt0", "alt1", "alt2"):
                 files = render(s, prod, mode)
                 if not files:
                     continue
@@ -867,6 +917,10 @@ def check():
         # constant tags only if they are equal (lemmas shared with C07)
         # the digest of a node is the cache key of evaluated declarations: it must tell the nodes of two modules apart
         c09.digest_lemmas(o, app_structural)
+        # Uri::append unwraps the last segment of its left operand: both operands keep all their segments but the one
+        # trailing empty one (lemma shared with C02)
+        import props.c02 as c02
+        c02.uri_append_lemmas(o, Lg, Lg.smt, M, E, app_structural, lambda name, model: app_bad.append(name))
         import props.c07 as c07
         ubad = []
         c07.unify_step_lemmas(o, Lg, Lg.smt, M, E, ubad)
@@ -889,6 +943,8 @@ MUST_NOT_CRASH = {
     "recursive-uri": "let u = concat /a u;\nres u on get -> <{}>;\n",
     "relation-where-a-schema-property-is-expected": "let r = /x on get -> <{}>;\nlet s = { 'r r, 'again? s };\nres / on get -> <s>;\n",
     "recursive-transfer-through-ranges": "let t = get -> <{}> :: t;\nres / on t;\n",
+    "concat-of-root-and-root-as-a-left-operand": "let root = /;\nlet prefix = concat root /;\nlet mount p = concat prefix p;\nres (mount /items) on get -> <{}>;\nres (mount /items/{ 'id int }) on get -> <{}>;\n",
+    "concat-with-trailing-and-leading-separators": "let a = concat (/a/) (/);\nlet b = concat a (/b/);\nlet c = concat (concat b /) (/c);\nres c on get -> <{}>;\n",
     "recursive-array-of-relations": "let r = /x on get -> <[r]>;\nres r;\n",
 }
 
@@ -902,6 +958,18 @@ for _k, _shape in enumerate(("{ 'name! str, 'children [node] }", "{ 'name str, '
     MUST_NOT_CRASH["two-modules-recursive-relation-and-schema-%d" % _k] = {"main.oal": _HOME, "shapes.oal": "let node = %s;\n" % _shape}
     MUST_NOT_CRASH["two-modules-recursive-schema-and-relation-%d" % _k] = {
         "main.oal": "let node = %s;\nuse \"links.oal\" as l;\nres /tree on get -> <node>;\nres l.home;\n" % _shape, "links.oal": "let home = / on get -> { 'self home };\n"}
+
+
+def every_producer_in_every_site():
+    """name -> program text: each catalogued producer written into each catalogued site (and its variants with the optional
+    neighbours present), well typed or not. For C04: whatever the checker says, nothing may take a front end down."""
+    out = {}
+    for (root, sub), t in TEMPLATES.items():
+        for k, tt in enumerate([t] + ALT_TEMPLATES.get((root, sub), [])):
+            for pr in PRODUCERS:
+                prod = {"snippet": pr[3], "prelude": ""}
+                out["%s%s-%d-%s" % (root.replace("::", "."), ("." + sub) if sub else "", k, pr[0])] = PRELUDE + tt.replace("HOLE", pr[3]) + "\n"
+    return out
 
 
 EMITTER_PROGRAMS = {
